@@ -140,6 +140,8 @@ def ref_argv(exe, fields, values, append_args):
         may += m
         chunks.append({"name": f["name"], "cls": pos_class(f), "idx": idx, "position": f.get("position"),
                        "args": args, "elems": elems, "value": v, "kind": f["kind"],
+                       "ellipsis": f["kind"] == "list" and f["argstr"].endswith("..."),
+                       "templated": "{" in f["argstr"],
                        "units": [{"args": a, "value": uv} for a, uv in units]})
     argv = list(exe)
     for c in chunks:
